@@ -342,7 +342,11 @@ func (c *Ctx) evalSelector(env *Env, x *ast.SelectorExpr) Val {
 			// ghost attribute of an object behind an interface: an uninterpreted
 			// function of its identity (used by interface contracts)
 			c.declareFun("ghost."+x.Sel.Name, []Sort{SInt}, SInt)
-			return app(SInt, "ghost."+x.Sel.Name, v.Ref)
+			t := app(SInt, "ghost."+x.Sel.Name, v.Ref)
+			if x.Sel.Name == "g_unrollid" {
+				c.unrollIDExists(t)
+			}
+			return t
 		}
 	case StructPtr:
 		// field (possibly promoted through an embedded struct)
@@ -859,8 +863,8 @@ func (c *Ctx) applySpec(env *Env, fv FuncV, args []Val) Val {
 	if fv.Fn == nil {
 		return c.applyUF(fv, args)
 	}
-	if c.inQuant > 0 {
-		panic(vcErr("application of a closure under a quantifier is not supported"))
+	if c.inQuant > 0 && !(len(fv.Fn.Blocks) == 1 && straightLinePure(fv.Fn)) {
+		panic(vcErr("application of a closure under a quantifier is not supported (only single-block closures without memory access)"))
 	}
 	c.specMode++
 	defer func() { c.specMode-- }()
@@ -937,4 +941,34 @@ func (c *Ctx) ghostCell(st *State, name string) T {
 	c.cellTypes[key] = types.Typ[types.Int]
 	st.cells[key] = v
 	return v
+}
+
+// straightLinePure: a single-block function whose instructions are arithmetic,
+// conversions, reads of captured variables and a return (its inlined value is a
+// term over its arguments, so it may be applied under a quantifier).
+func straightLinePure(fn *ssa.Function) bool {
+	for _, in := range fn.Blocks[0].Instrs {
+		switch x := in.(type) {
+		case *ssa.BinOp, *ssa.Convert, *ssa.ChangeType, *ssa.Return, *ssa.DebugRef:
+		case *ssa.UnOp:
+			if x.Op == token.MUL {
+				if _, ok := x.X.(*ssa.FreeVar); !ok {
+					return false
+				}
+			}
+		default:
+			return false
+		}
+	}
+	return true
+}
+
+// unrollIDExists: the slice x.Unroll() returns is modelled as one object per array
+// that exists at entry (the array's own storage, or a buffer set aside for the
+// copy): it is never one of the objects the function under contract allocates.
+func (c *Ctx) unrollIDExists(t T) {
+	if c.alloc0.S != "" && c.inQuant == 0 && !c.declared["unrollid-old:"+t.S] {
+		c.declared["unrollid-old:"+t.S] = true
+		c.emit(fmt.Sprintf("(assert (and (< 0 %s) (< %s %s)))", t.S, t.S, c.alloc0.S))
+	}
 }
